@@ -1,4 +1,109 @@
-import Props.Lemmas
+/-
+  C11 — partial linking produces the same layout as one-step linking.
+-/
+import Props.C01
+import Props.C04
 namespace Slinky.C11
-theorem placeholder : True := trivial
+open Slinky W
+
+/-- the per-file emitter reads the writer context only through the options, the path
+expansion, the symbol style and `reference_partial_objects`: the two flags that distinguish a
+partial sub-script writer (`emit_sections_kind_symbols`, `emit_section_symbols`) do not matter. -/
+theorem emitEntry_flags (cx : Ctx) (k s : Bool) (seg : Segment) (secs : List Str) :
+    ∀ (n : Nat) (f : FileInfo) (sec base : Str) (parents : List Str),
+      emitEntry { cx with emitKindSyms := k, emitSecSyms := s } seg secs n f sec base parents
+        = emitEntry cx seg secs n f sec base parents := by
+  intro n
+  induction n with
+  | zero => intro f sec base parents; rfl
+  | succ n ih =>
+    intro f sec base parents
+    rw [emitEntry, emitEntry]
+    simp only [ih]
+
+/-- **same input statements.** For every section, the statements the partial sub-script of a
+segment holds (inputs with `KEEP`, pads, linker offsets, in order) are exactly those the
+ordinary script holds for that segment and section. -/
+theorem same_statements (d : Document) (o : Opts) (esc : Opts → Str → Except ErrKind Str) (seg : Segment) (sec : Str) (secs : List Str) :
+    emitSection { d := d, o := o, emitKindSyms := false, emitSecSyms := false, esc := esc } seg sec secs
+      = emitSection { d := d, o := o, esc := esc } seg sec secs := by
+  unfold emitSection
+  have := emitEntry_flags { d := d, o := o, esc := esc } false false seg secs
+  simp only at this
+  simp only [this]
+
+/-- **one partial script per emitted segment, in order, by name; none for an excluded one.** -/
+theorem one_script_per_emitted_segment (d : Document) (o : Opts) (vc : Bool) (folder : Str)
+    (esc : Opts → Str → Except ErrKind Str) :
+    ∀ (segs : List Segment) (em : List Str) (ls : List Line) (em' : List Str) (ps : List (Str × List Line)),
+      partialSegments d o vc folder esc em segs = .ok (ls, em', ps) →
+      ps.map (·.1) = (segs.filter (fun s => shouldEmit o s.cond)).map (·.name) := by
+  intro segs
+  induction segs with
+  | nil =>
+    intro em ls em' ps h
+    simp [partialSegments] at h
+    simp [h.2.2.symm]
+  | cons seg rest ih =>
+    intro em ls em' ps h
+    unfold partialSegments at h
+    split at h
+    · rename_i hx
+      have : shouldEmit o seg.cond = false := by
+        cases hh : shouldEmit o seg.cond
+        · rfl
+        · simp [hh] at hx
+      simp [List.filter_cons, this, ih em ls em' ps h]
+    · rename_i hx
+      have hs : shouldEmit o seg.cond = true := by
+        cases hh : shouldEmit o seg.cond
+        · simp [hh] at hx
+        · rfl
+      split at h
+      · contradiction
+      · split at h
+        · contradiction
+        · split at h
+          · contradiction
+          · rename_i b em2 ps2 hrest
+            injection h with h
+            simp only [Prod.mk.injEq] at h
+            rw [← h.2.2]
+            simp [List.filter_cons, hs, ih _ _ _ _ hrest]
+
+/-- **the main script places exactly the one partial object in every group**: with
+`reference_partial_objects` the segment handed to the main writer has the single file
+`<partial_build_segments_folder>/<name>.o`, and each of its sections gets one statement for it
+(no `KEEP`, no sub-groups, the segment's own wildcard flag), under `base_path` without the
+segment `dir`. -/
+theorem main_places_partial_object (d : Document) (o : Opts) (esc : Opts → Str → Except ErrKind Str)
+    (folder : Str) (seg : Segment) (sec : Str) (secs : List Str) (base q : Str)
+    (hb : esc o d.settings.basePath = .ok base)
+    (hq : esc o (pathPush folder (seg.name ++ c!".o")) = .ok q) :
+    emitSection { d := d, o := o, refPartial := true, esc := esc } (partialSegment folder seg) sec secs
+      = .ok [.input false (display (pathPush base q)) none sec seg.wildcardSections] := by
+  unfold emitSection
+  simp only [hb, liftPath, if_true, partialSegment, FileInfo.newObject]
+  rw [C01.concatMapE_singleton]
+  have := C01.object_placed_once { d := d, o := o, refPartial := true, esc := esc }
+    { seg with files := [FileInfo.mk (pathPush folder (seg.name ++ c!".o")) .object [] 0 [] [] [] [] [] {} .absent] }
+    secs (fuelFor { seg with files := [FileInfo.mk (pathPush folder (seg.name ++ c!".o")) .object [] 0 [] [] [] [] [] {} .absent] } - 1)
+    (pathPush folder (seg.name ++ c!".o")) {} .absent sec base [] q (C01.shouldEmit_empty o) (by simp) hq (Or.inl rfl)
+  have hf : fuelFor { seg with files := [FileInfo.mk (pathPush folder (seg.name ++ c!".o")) .object [] 0 [] [] [] [] [] {} .absent] }
+      = (fuelFor { seg with files := [FileInfo.mk (pathPush folder (seg.name ++ c!".o")) .object [] 0 [] [] [] [] [] {} .absent] } - 1) + 1 := by
+    simp [fuelFor]
+  rw [hf, this]
+  simp [keepFor]
+
+/-- **the main script has the same ROM statements as the ordinary script** (same segments,
+same alignments, same load addresses): both are `C04.sections_rom` of the same document, the
+segment handed to the main writer differing from the original only in its file list. -/
+theorem main_same_rom (st : Style) (folder : Str) (seg : Segment) :
+    C04.segmentRom st (partialSegment folder seg) = C04.segmentRom st seg := rfl
+
+/-- missing `partial_build_segments_folder` is an error, not a silent default. -/
+theorem missing_folder_is_error (d : Document) (o : Opts) (vc : Bool) (h : d.settings.partialBuildSegmentsFolder = none) :
+    generatePartial d o vc = .error (.err .missingRequiredField) := by
+  simp [generatePartial, h]
+
 end Slinky.C11
